@@ -1,5 +1,6 @@
 """C14 - session nonces advance by exactly one per packet, big-endian, full carry."""
 from driver import Group
+from props import common
 
 LEVEL = "proof"
 EXPLANATION = (
@@ -23,5 +24,7 @@ def groups(tier):
     for f in ("ascon_aead_increment_nonce", "ascon_aead_set_counter"):
         gs.append(Group("c14." + f, ["C14"], "harness/h_call.c", "h_call", SRC, cfg="C64", enforce=f,
                         defs=["VERIF_CALL_" + f], contracts=["contracts/c_nonce.h"], unwind=18,
-                        expect_classes=["postcondition", "assigns"]))
+                        expect_classes=["postcondition", "assigns"], replay=common.aead_replay("C64")))
+    # the stored nonce advances by exactly one per started packet, and the packet is keyed by the OLD nonce
+    gs += common.aead_inc_groups("c14", ["C14"], ("init", "reinit", "start", "encrypt_finalize", "decrypt_finalize"))
     return gs
